@@ -508,6 +508,11 @@ fn read_payload_size(buffer: &[u8]) -> Result<(usize, usize), ReadError> {
 
     for i in 0..std::cmp::min(buffer.len(), max_len) {
         if decode::is_last(buffer[i]) {
+            // The decoder silently drops the bits of a maximum-length varint that do not fit.
+            if i + 1 == max_len && buffer[i] > 1 {
+                return Err(ReadError::Overflow);
+            }
+
             match decode::usize(&buffer[..=i]) {
                 Err(_) => return Err(ReadError::DecodeError),
                 Ok(size) => return Ok((size.0, i + 1)),
